@@ -1,2 +1,7 @@
+import GoPlugin.Generated.Facts
 import GoPlugin.Go.Bytes
 import GoPlugin.Model.Handshake
+import GoPlugin.Model.Scanner
+import GoPlugin.Oracle.C01
+import GoPlugin.Oracle.Wire
+import GoPlugin.Props.C01
